@@ -134,3 +134,17 @@ Example c09_ex_retry :
 Proof. vm_compute. reflexivity. Qed.
 Example c09_ex_env : env_ok (final (fresh 0 0 0) [OpPrep]) (OpMsg MStarted Polled 0%Z) = true.
 Proof. vm_compute. reflexivity. Qed.
+
+(* ---------- scheduler level: the pool automaton (Model/Pool.v) ---------- *)
+From Cylc Require Model.Pool Proofs.PoolProofs Proofs.PoolTheorems.
+
+(* Every status change the pool automaton accepts is an edge of the lifecycle
+   relation; waiting -> preparing needs a queue release or a manual trigger,
+   and a held task is not prepared unless manually triggered. *)
+Theorem c09_pool_status_change_follows_lifecycle : forall c s t st0 h q r s' p inp,
+  Pool.step c s (Pool.EState t st0 h q r) = Pool.Ok s' -> Pool.lookup s t = Some (p, inp) ->
+  st0 = Pool.p_status p \/
+  (PoolTheorems.lifecycle (Pool.p_status p) st0 /\
+   (Pool.p_status p = Pool.Waiting -> st0 = Pool.Preparing -> Pool.p_rel p = true \/ Pool.p_manual p = true) /\
+   (st0 = Pool.Preparing -> Pool.p_held p = true -> Pool.p_manual p = true)).
+Proof. exact PoolTheorems.status_change_follows_lifecycle. Qed.
